@@ -15,7 +15,11 @@ class Virtual(BaseHandler):
         # These hold the "real" and the "argument" portion of the selector,
         # respectively.
 
-        if self.selector.find("?") != -1 or self.selector.find("|") != -1:
+        # A selector that names an existing object as it stands has no
+        # argument part, whatever characters the name contains.
+        if (
+            self.selector.find("?") != -1 or self.selector.find("|") != -1
+        ) and not self.vfs.exists(self.selector):
             try:
                 i = self.selector.index("?")
             except ValueError:
